@@ -86,12 +86,11 @@ Lemma limits_panic_before_fix :
     eval_arms max_repack_arms_0 false (Percentage 18446744073709551615) 1000 1000 = None.
 Proof. repeat split; vm_compute; reflexivity. Qed.
 
-(* still open (owned by property C06): an accepted Rabin minimum size below the read-buffer
-   leftover underflows `min_size -= open_buf_len`; below 64 the prefill slice is out of range *)
-Lemma rabin_small_min_refuted :
+(* repaired by the C06 fix (check_rabin_params rejects chunk_min_size < MIN_CHUNK_MIN_SIZE = BUF_SIZE):
+   a Rabin minimum size below the read-buffer leftover underflowed `min_size -= open_buf_len`, below 64
+   the prefill slice was out of range; such parameters are now refused *)
+Lemma rabin_small_min_now_refused :
   let o := mk [(O_set_chunk_size, 1024); (O_set_chunk_min_size, 10); (O_set_chunk_max_size, 2048)] in
-  let r := apply_mut o (new_config 7 9) in
-  snd r = Done /\ opts_wf o = true /\
-  rabin_next_arith (cfg_chunk_min_size (fst r)) (BUF_SIZE - 1) (cfg_chunk_min_size (fst r)) = None /\
-  rabin_next_arith (cfg_chunk_min_size (fst r)) 0 (cfg_chunk_min_size (fst r)) = None.
-Proof. repeat split; vm_compute; reflexivity. Qed.
+  opts_wf o = true /\ snd (apply_mut o (new_config 7 9)) <> Done /\
+  rabin_next_arith 10 (BUF_SIZE - 1) 10 = None.
+Proof. repeat split; vm_compute; congruence. Qed.
